@@ -5,7 +5,7 @@ from .lp import Vars, VarSub, Affine, Convex
 from .lp import DecRule
 from .lp import RoAffine, RoConstr
 from .lp import PiecewiseConvex, PWConstr
-from .lp import Solution, def_sol
+from .lp import Solution, def_sol, check_curvature
 import numpy as np
 from numbers import Real
 from collections.abc import Iterable
@@ -141,6 +141,7 @@ class Model:
             else:
                 if obj.size > 1:
                     raise ValueError('Incorrect function dimension.')
+        check_curvature(obj, 1)
 
         self.obj = obj
         self.sign = 1
@@ -172,6 +173,7 @@ class Model:
             else:
                 if obj.size > 1:
                     raise ValueError('Incorrect function dimension.')
+        check_curvature(obj, -1)
 
         self.obj = obj
         self.sign = - 1
@@ -203,6 +205,7 @@ class Model:
         if not isinstance(obj, (Real, PiecewiseConvex)):
             if obj.size > 1:
                 raise ValueError('Incorrect function dimension.')
+        check_curvature(obj, 1)
 
         constraints = []
         for items in args:
@@ -249,6 +252,7 @@ class Model:
         if not isinstance(obj, (Real, PiecewiseConvex)):
             if obj.size > 1:
                 raise ValueError('Incorrect function dimension.')
+        check_curvature(obj, -1)
 
         constraints = []
         for items in args:
